@@ -90,6 +90,19 @@ def lazy_checks():
             except Exception as e:
                 out.append(("lazy-by-id:" + json.dumps(sp), f"open_job(id=...) of the never-initialised job {sp} raised {type(e).__name__}: {e}"))
             j.init()
+            fn_sp = j.fn("signac_statepoint.json")
+            st0 = (open(fn_sp, "rb").read(), os.stat(fn_sp).st_mtime_ns, os.stat(fn_sp).st_ino)
+            for label, h, kw in (("same handle", j, {}), ("same handle, force", j, {"force": True}), ("fresh session", signac.Project(p.path).open_job(sp), {}),
+                                 ("fresh session, force", signac.Project(p.path).open_job(sp), {"force": True}), ("fresh session by id, force", signac.Project(p.path).open_job(id=j.id), {"force": True})):
+                try:
+                    h.init(**kw)
+                except Exception as e:
+                    out.append(("reinit:" + json.dumps(sp), f"init({kw}) of the initialised job {sp} ({label}) raised {type(e).__name__}: {e}"))
+                    continue
+                st = (open(fn_sp, "rb").read(), os.stat(fn_sp).st_mtime_ns, os.stat(fn_sp).st_ino)
+                if st != st0:
+                    out.append(("reinit:" + json.dumps(sp), f"init({kw}) of the initialised job {sp} ({label}) rewrote its valid state point file"))
+                    break
             q = signac.Project(p.path).open_job(id=j.id)
             try:
                 if json.loads(json.dumps(q.statepoint())) != sp or json.loads(json.dumps(dict(q.cached_statepoint))) != sp:
